@@ -26,7 +26,7 @@ import (
 // C32: every script is an abstract index directory produced by TLC from spec/sys/Cleanup.tla.
 // It is materialised with real shards (real Builder, real Merge for the compound shard, real
 // SetTombstone, os.Chtimes), the real cleanup(...) is run, and the directory is projected back
-// without using anything of cleanup.go (directory listing + index.ReadMetadataPath, cross-checked
+// without using anything of cleanup.go (directory listing + index.ReadMetadata on the bytes, cross-checked
 // against the raw .meta sidecar).  The projections are written to the trace; the comparison with
 // the model's prediction and the validation by Trace_Cleanup.tla happen outside.
 
